@@ -293,8 +293,11 @@ def main(argv=None):
         if rt.get("error"):
             undecided.append("runtime: " + rt["error"])
         for ch in rt.get("checks", []):
-            bounded.append({k: ch[k] for k in ("name", "function", "cases",
-                                               "failures_n", "bound", "wall_s")})
+            entry = {k: ch[k] for k in ("name", "function", "cases",
+                                        "failures_n", "bound", "wall_s")}
+            entry["cases_skipped_on_timeout"] = ch.get("timeouts", 0)
+            entry["case_list_exhausted"] = bool(ch.get("exhausted", True))
+            bounded.append(entry)
             if ch.get("error"):
                 undecided.append(f"runtime check {ch['name']}: {ch['error']}")
             for fail in ch.get("failures", []):
